@@ -1,4 +1,5 @@
 //! simrw — deterministic simulation with fault injection for dd-native-iast-rewriter-js (Rust side).
+mod c10;
 mod c13;
 mod c16;
 mod driver;
@@ -12,7 +13,7 @@ mod smap;
 use driver::{Engine, Tier};
 
 fn engines() -> Vec<&'static dyn Engine> {
-    vec![&c13::C13, &c16::C16]
+    vec![&c10::C10, &c13::C13, &c16::C16]
 }
 
 fn usage() -> i32 {
@@ -93,6 +94,33 @@ fn real_main(args: &[String]) -> i32 {
             driver::replay_main(&engs, &args[2])
         }
         "oneshot" => c16::oneshot_main(),
+        "call" => {
+            // debugging aid: one call described by a JSON file {cfg, prng_seed?, file, source, fs?, faults?}
+            let v: serde_json::Value = serde_json::from_str(&std::fs::read_to_string(&args[2]).unwrap()).unwrap();
+            exec::install_quiet_panic_hook();
+            let fs: fsim::FsSpec = v.get("fs").cloned().map(|x| serde_json::from_value(x).unwrap()).unwrap_or_default();
+            let faults: fsim::FaultPlan = v.get("faults").cloned().map(|x| serde_json::from_value(x).unwrap()).unwrap_or_default();
+            let cfg = match exec::make_config(&v["cfg"], v["prng_seed"].as_u64().unwrap_or(1)) {
+                Ok(c) => c,
+                Err(o) => {
+                    println!("{}", serde_json::to_string_pretty(&o).unwrap());
+                    return 1;
+                }
+            };
+            let n = v["repeat"].as_u64().unwrap_or(1);
+            for _ in 0..n {
+                let r = exec::call(&cfg, v["source"].as_str().unwrap_or(""), v["file"].as_str().unwrap_or("a.js"), &fs, &faults);
+                println!("{}", serde_json::to_string_pretty(&r.outcome).unwrap());
+                if let Some(c) = r.outcome.content() {
+                    println!("---- content ----\n{}", c);
+                    if let Some((_, m)) = smap::split_trailer(c) {
+                        println!("---- trailer map ----\n{}", m);
+                    }
+                }
+                println!("---- reader: opens={:?} reads={} bytes={} fired={:?}", r.stats.opens, r.stats.read_calls, r.stats.bytes_served, r.stats.faults_fired);
+            }
+            0
+        }
         "gen" => {
             let seed: u64 = args.get(2).and_then(|s| s.parse().ok()).unwrap_or(1);
             let mut rng = prng::Rng::new(seed);
